@@ -25,12 +25,12 @@ pub fn acos_contract(x: f32) -> f32 {
 fn within(x: f32, lo: f32, hi: f32) -> bool { x.abs() >= lo && x.abs() <= hi }
 fn any_in(lo: f32, hi: f32) -> f32 { let x: f32 = kani::any(); kani::assume(within(x, lo, hi)); x }
 
-/// K: fns=Vec2::angle_between,Vec2::normalized,Vec2::dot,Clamp::clamped_minus1_1 | inst=Vec2<f32> | bound=all finite components with 2^-10 <= |c| <= 2^10; the two operands are the same vector (exactly parallel: the cosine is 1 up to rounding) | stubs=f32::acos -> contract (domain [-1,1], range [0,pi]) | cap=600
+/// K: fns=Vec2::angle_between,Vec2::normalized,Vec2::dot,Clamp::clamped_minus1_1 | inst=Vec2<f32> | bound=all finite components with 2^-40 <= |c| <= 2^40 (80 binades: an intermediate that squares a squared magnitude leaves the f32 range inside this window); the two operands are the same vector (exactly parallel: the cosine is 1 up to rounding) | stubs=f32::acos -> contract (domain [-1,1], range [0,pi]) | cap=600
 /// K: asserts=angle_between(v, v) is a number in [0, pi], never NaN: the argument handed to acos stays inside its domain under rounding
 #[kani::proof]
 #[kani::stub(f32::acos, acos_contract)]
 fn c11_q_angle_between_f32_parallel() {
-    let a: Vec2<f32> = Vec2::new(any_in(0.0009765625, 1024.0), any_in(0.0009765625, 1024.0));
+    let a: Vec2<f32> = Vec2::new(any_in(9.094947017729282e-13, 1099511627776.0), any_in(9.094947017729282e-13, 1099511627776.0));
     let r = a.angle_between(a);
     kani::cover!(a.x != a.y && a.x < 0.0, "generic operand");
     assert!(!r.is_nan(), "angle_between returned NaN");
@@ -70,4 +70,51 @@ fn c11_t_angle_between_f32_vec4_parallel() {
     kani::cover!(a.x != a.w, "generic operand");
     assert!(!r.is_nan(), "angle_between returned NaN");
     assert!(r >= 0.0 && r <= core::f32::consts::PI);
+}
+
+// ---- the cosine itself -----------------------------------------------------------------------------------------
+// The harnesses above see only that the argument of acos is in its domain. These capture the argument: for
+// structured pairs (the same vector, its negation, its quarter turn) the exact cosine is known to be 1, -1, 0 whatever
+// the magnitude, so an intermediate that overflows or underflows (a product of squared magnitudes, say) shows as a
+// cosine that is not the right one, for every magnitude in a window of 80 binades.
+static mut LAST_ACOS_ARG: f32 = 7.0;
+pub fn acos_capture(x: f32) -> f32 {
+    unsafe { LAST_ACOS_ARG = x; }
+    acos_contract(x)
+}
+fn last_arg() -> f32 { unsafe { LAST_ACOS_ARG } }
+const TOL: f32 = 0.00000095367431640625; // 2^-20
+const LO: f32 = 9.094947017729282e-13; // 2^-40
+const HI: f32 = 1099511627776.0; // 2^40
+
+/// K: fns=Vec2::angle_between,Vec2::normalized,Vec2::dot,Vec2::magnitude | inst=Vec2<f32> | bound=all v with 2^-40 <= |c| <= 2^40 per component; the pair (v, v) | stubs=f32::acos -> contract that records its argument | cap=1800
+/// K: asserts=the cosine handed to acos is 1 (up to 2^-20) for an operand of any magnitude in the window against itself
+#[kani::proof]
+#[kani::stub(f32::acos, acos_capture)]
+fn c11_t_angle_between_f32_cosine_parallel() {
+    let a: Vec2<f32> = Vec2::new(any_in(LO, HI), any_in(LO, HI));
+    kani::cover!(a.x > 1.0e9 && a.y < -1.0e9, "large operand");
+    kani::cover!(a.x.abs() < 1.0e-9, "small operand");
+    let _ = a.angle_between(a);
+    assert!(last_arg() >= 1.0 - TOL && last_arg() <= 1.0, "cos(v, v) = 1");
+}
+/// K: fns=Vec2::angle_between | inst=Vec2<f32> | bound=all v with 2^-40 <= |c| <= 2^40 per component; the pairs (v, -v) and (v, quarter turn of v) | stubs=f32::acos -> contract that records its argument | cap=1200
+/// K: asserts=the cosine handed to acos is -1 / 0 (up to 2^-20) for antiparallel / perpendicular operands of any magnitude in the window
+#[kani::proof]
+#[kani::stub(f32::acos, acos_capture)]
+fn c11_t_angle_between_f32_cosine_anti_perp() {
+    let a: Vec2<f32> = Vec2::new(any_in(LO, HI), any_in(LO, HI));
+    kani::cover!(a.x > 1.0e9, "large operand");
+    if kani::any() { let _ = a.angle_between(-a); assert!(last_arg() <= -1.0 + TOL && last_arg() >= -1.0, "cos(v, -v) = -1"); }
+    else { let _ = a.angle_between(Vec2::new(-a.y, a.x)); assert!(last_arg().abs() <= TOL, "cos(v, quarter turn of v) = 0"); }
+}
+/// K: fns=Vec3::angle_between | inst=Vec3<f32> | bound=all v with 2^-40 <= |c| <= 2^40 per component; pairs (v, v), (v, -v) | stubs=f32::acos -> contract that records its argument | cap=1800
+/// K: asserts=the cosine handed to acos is 1 / -1 (up to 2^-20) for parallel / antiparallel operands of any magnitude in the window
+#[kani::proof]
+#[kani::stub(f32::acos, acos_capture)]
+fn c11_t_angle_between_f32_cosine_vec3() {
+    let a: Vec3<f32> = Vec3::new(any_in(LO, HI), any_in(LO, HI), any_in(LO, HI));
+    kani::cover!(a.x > 1.0e9, "large operand");
+    if kani::any() { let _ = a.angle_between(a); assert!(last_arg() >= 1.0 - TOL && last_arg() <= 1.0, "cos(v, v) = 1"); }
+    else { let _ = a.angle_between(-a); assert!(last_arg() <= -1.0 + TOL && last_arg() >= -1.0, "cos(v, -v) = -1"); }
 }
